@@ -122,17 +122,21 @@ func genC06(seed uint64, run int, tier string) *drv.Plan {
 		b.MaxVersions = 9
 		b.MediumMax = 24
 	}
-	g := drv.NewGen(r, b)
-	p := &drv.Plan{Engine: "drv", Mode: "sync"}
-	p.Config = g.Config()
-	p.Config.Cache = r.Pick(0, 0, 2, 1000)
-	if r.Chance(1, 3) {
-		p.Config.AsyncPrune = true
-		p.Mode = "async"
+	mode := "sync"
+	if r.Chance(2, 5) {
+		mode = "async"
 		if r.Chance(1, 2) {
-			p.Mode = "async-bracket" // SetCommitting/UnsetCommitting around SaveVersion, as the SDK does
+			mode = "async-bracket" // SetCommitting/UnsetCommitting around SaveVersion, as the SDK does
+			// versions that share their root with the next one make the pruner
+			// re-key a root, the one write of it that saves a node
+			b.NoopVersion = 25
 		}
 	}
+	g := drv.NewGen(r, b)
+	p := &drv.Plan{Engine: "drv", Mode: mode}
+	p.Config = g.Config()
+	p.Config.Cache = r.Pick(0, 0, 2, 1000)
+	p.Config.AsyncPrune = mode != "sync"
 	steps := g.History()
 	// the writer must end on a commit
 	for len(steps) > 0 {
